@@ -271,6 +271,8 @@ void cs_std_S(const cs_scenario *sc, const cs_std *st, int findex, cs_c *S)
 
 /* ------------------------------------------------------------------ */
 
+double cs_vector_wiggle;
+
 int cs_make_params(vnacal_t *vcp, cs_scenario *sc)
 {
     const cs_vna *v = &sc->vna;
@@ -299,6 +301,11 @@ int cs_make_params(vnacal_t *vcp, cs_scenario *sc)
 	    for (int i = 0; i < n; ++i) {
 		fv[i] = n == 1 ? lo : lo + (hi - lo) * i / (n - 1);
 		gv[i] = cs_param_value(v, p, fv[i]) * scale;
+		/* tabulated data that no interpolation window reproduces:
+		   what libvna makes of it depends on the window it picks */
+		if (cs_vector_wiggle != 0.0 && p->kind == CSP_VECTOR)
+		    gv[i] += cs_vector_wiggle *
+			vf_cunit(7300 + (uint64_t)k, (uint64_t)i);
 	    }
 	    if (p->kind == CSP_UNKNOWN && p->npts <= 1)
 		h = vnacal_make_scalar_parameter(vcp, gv[0]);
